@@ -659,6 +659,17 @@ func CheckWrite(cs Case) (fs []Finding, outcome uint64) {
 		add("stl.write.ref-cue-count", "%d cues written, independent decoder finds %d subtitle blocks among %d", len(wc), len(rd.Cues()), len(rd.Blocks))
 		return fs, 0
 	}
+	// block numbering and totals: one TTI block per cue, every block its own subtitle (strictly ascending subtitle
+	// numbers - blocks sharing a number are extension blocks of ONE subtitle to a decoder), GSI totals = what is there
+	for i := 1; i < len(rd.Blocks); i++ {
+		if rd.Blocks[i].SN <= rd.Blocks[i-1].SN {
+			add("stl.write.subtitle-number", "TTI block %d carries subtitle number %d after %d (numbers must ascend; an independent decoder sees a repeated number as the same subtitle)", i, rd.Blocks[i].SN, rd.Blocks[i-1].SN)
+			break
+		}
+	}
+	if notes.TNB != len(wc) || notes.TNS != len(wc) {
+		add("stl.write.totals", "%d cues written; GSI says TNB=%d TNS=%d", len(wc), notes.TNB, notes.TNS)
+	}
 	fpsOut := rd.GSI.FPS
 	// metadata
 	if cs.W.Meta == 0 {
@@ -1222,6 +1233,31 @@ func run(c *core.Ctx) {
 			flush()
 		}
 	}
+	// many cues: block counts around every byte boundary of the 2-byte subtitle number and the 5-digit GSI totals
+	manyN := []int{255, 256, 257, 300, 511, 513}
+	if thorough {
+		manyN = append(manyN, 1000, 9999, 10001, 65535) // 65536 cues cannot be numbered in a 2-byte field: outside the format
+	}
+	for _, fps := range []int{25, 30} {
+		for _, dsc := range []string{"0", "1"} {
+			for _, n := range manyN {
+				if stop || !c.Mine() {
+					continue
+				}
+				cs := baseCase(fps, dsc)
+				proto := cs.Doc.Blocks[0]
+				cs.Doc.Blocks = nil
+				for i := 0; i < n; i++ {
+					b := proto
+					b.SN = i
+					b.In, b.Out = tcFromFrames(int64(2*i), fps), tcFromFrames(int64(2*i+1), fps)
+					cs.Doc.Blocks = append(cs.Doc.Blocks, b)
+				}
+				r.exec("many", cs, 1, true, true, nil)
+				tick()
+			}
+		}
+	}
 	// TCP subtraction over every frame offset: TCP and TCI both sweep the frames of one second
 	for _, fps := range []int{25, 30} {
 		for pf := 0; pf < fps && !stop; pf++ {
@@ -1479,8 +1515,8 @@ func init() {
 		ID: "C05", Level: "exploration",
 		Rule: "a case = (ground-truth EBU STL model: GSI field values, DFC 25/30, DSC 0/1/2, TCP, TTI blocks incl. user-data blocks, timecodes, VP, JC, rows of styled runs over the Latin table; rendering choices: box form, colour code, style-code form, blanks, trailing break; option ignore-TCP; write options: metadata kind, instant rounding, attribute form, NFC/NFD). Enumerated by the E1 explorer (three full products of small grammars + every case within B deviations of the baseline over all choice points) and by plain nested loops: every timecode of the stated h,m,s sets x ALL frame numbers, TCP x TCI over all frame pairs, every assigned code of the Latin table, every diacritic x base character, diacritic pairs across rows/cues, every string of style codes (<=3 before, <=2|3 inside the text), every millisecond of a second on the write side. Read: ReadFromSTL(ref.Encode(model)) must denote the model (metadata fields, one cue per non-user-data block, instants exact to <1 ns, VP, JC, rows of styled characters up to canonical equivalence), then WriteToSTL of the result must keep every TCI/TCO and re-read to the same instants. Write: WriteToSTL(model) must be 1024+128n bytes and denote the model's cues (instant within one frame) and metadata to ref.Decode and to ReadFromSTL; read-write again keeps every timecode. non-trivial = non-baseline case, distinct by its serialised form",
 		Scope: map[core.Tier]string{
-			core.Quick:    "core product (fps x DSC x TCP x ignore x user-data placement x <=2 rows x <=2 runs x 3 styles x box/style-code forms), block-pattern product (<=3 cues, user-data blocks before each and after), write-option product, deviation ball B=2 over ~150 choice points (<=3 cues, <=3 rows, <=3 runs, 8 styles, 19 text atoms); timecodes {0,1,23}h x {0,1,30,59}m x 0..59 s x all frames at 25 and 30 fps; 13 diacritics x 63 bases; style-code strings <=3 / <=2; every valid VP x JC; every ms of a second (write)",
-			core.Thorough: "as quick with deviation ball B=3, every timecode of the day (24 x 60 x 60 x all frames, both rates), style-code strings <=3 / <=3",
+			core.Quick:    "core product (fps x DSC x TCP x ignore x user-data placement x <=2 rows x <=2 runs x 3 styles x box/style-code forms), block-pattern product (<=3 cues, user-data blocks before each and after), write-option product, deviation ball B=2 over ~150 choice points (<=3 cues, <=3 rows, <=3 runs, 8 styles, 19 text atoms); files of 255/256/257/300/511/513 cues (subtitle-number byte boundary, GSI totals); timecodes {0,1,23}h x {0,1,30,59}m x 0..59 s x all frames at 25 and 30 fps; 13 diacritics x 63 bases; style-code strings <=3 / <=2; every valid VP x JC; every ms of a second (write)",
+			core.Thorough: "as quick with deviation ball B=3, files of 1000/9999/10001/65535 cues, every timecode of the day (24 x 60 x 60 x all frames, both rates), style-code strings <=3 / <=3",
 		},
 		Assumptions: []string{"Go toolchain and standard library; golang.org/x/text/unicode/norm for canonical equivalence of the compared text",
 			"independent reference codec engine/ref/stl (Latin table as in EBU Tech 3264 Appendix 2 / ISO 6937-2: 24h = currency sign, A4h = dollar; A6h/A8h accepted by the decoder as number/currency sign, never generated)",
